@@ -191,6 +191,53 @@ def _case_run(fi, preds):
     return q.run_abstract(fi, oc)
 
 
+def _atom(e, table):
+    """-> (fact name, polarity) for a test operand that is one of the table's atoms in any spelling
+    (`a is b` / `b is a` / `a is not b` / `not ...` / is_defined() vs is_derived()), else None.
+    table: {("is", x, y): fact, ("call", text): fact, ("ncall", text): fact (negated)}"""
+    pol = True
+    while isinstance(e, ast.UnaryOp) and isinstance(e.op, ast.Not):
+        e, pol = e.operand, not pol
+    if isinstance(e, ast.Compare) and len(e.ops) == 1:
+        a, b, op = norm(e.left), norm(e.comparators[0]), e.ops[0]
+        if isinstance(op, (ast.Is, ast.IsNot, ast.Eq, ast.NotEq)):
+            f = table.get(("is", a, b)) or table.get(("is", b, a))
+            if f is not None:
+                return f, pol == isinstance(op, (ast.Is, ast.Eq))
+        if isinstance(op, (ast.In, ast.NotIn)):
+            f = table.get(("in", a, b))
+            if f is not None:
+                return f, pol == isinstance(op, ast.In)
+    t = norm(e)
+    if ("call", t) in table:
+        return table[("call", t)], pol
+    if ("ncall", t) in table:
+        return table[("ncall", t)], not pol
+    return None
+
+
+def _case_run_atoms(fi, table, facts):
+    def oc(e):
+        a = _atom(e, table)
+        if a is None or facts.get(a[0]) is None:
+            return None
+        return "T" if facts[a[0]] == a[1] else "F"
+    return q.run_abstract(fi, oc)
+
+
+def _known_atoms(fi, loop, table, R):
+    for n in fi.cfg.nodes:
+        if n.kind == "test" and n.ast is not None and any(a is loop for a in ancestors(fi.pm, n.ast)):
+            t = norm(n.ast)
+            if _atom(n.ast, table) is None:
+                if ".bases[0] is" in t or ".direct_bases[0] is" in t or \
+                        ("get_deriv_bases(" in t and "defined_only=True" not in t and "[0] is" in t):
+                    R.bad(fi, n.ast, "first definer is looked up among all bases, not among the *defined* ones: a derived copy "
+                                     "in an intermediate space hides the defining base")
+                    continue
+                raise AnalysisError("C03.R3: unrecognised predicate `%s` in %s" % (t, fi.short))
+
+
 def _known(fi, loop, vocab, R):
     """Every test operand inside the loop must be in the rule's vocabulary."""
     for n in fi.cfg.nodes:
@@ -220,10 +267,9 @@ def r3(ctx, R):
         lp = _sub_loops(fi)
         R.must(lp, "%s: loop over subs not found" % spec)
         lp = lp[0]
-        vocab = {"c is not cells", "c.is_defined()",
-                 "self.get_deriv_bases(c, defined_only=True)[0] is not cells",
-                 "self.get_deriv_bases(c, defined_only=True)[0] is cells"}
-        _known(fi, lp, vocab, R)
+        table = {("is", "c", "cells"): "is_self", ("call", "c.is_defined()"): "defined", ("ncall", "c.is_derived()"): "defined",
+                 ("is", "self.get_deriv_bases(c, defined_only=True)[0]", "cells"): "first"}
+        _known_atoms(fi, lp, table, R)
         acts = [c for c in ast.walk(lp) if isinstance(c, ast.Call) and call_name(c) in action]
         R.must(acts, "%s: action not found in the loop" % spec)
         cases = [("self", dict(is_self=True, defined=True, first=False), True),
@@ -234,10 +280,7 @@ def r3(ctx, R):
         for label, s_, want in cases:
             if want is None:
                 continue
-            preds = {"c is not cells": not s_["is_self"], "c.is_defined()": s_["defined"],
-                     "self.get_deriv_bases(c, defined_only=True)[0] is not cells": not s_["first"],
-                     "self.get_deriv_bases(c, defined_only=True)[0] is cells": s_["first"]}
-            reached = _case_run(fi, preds)
+            reached = _case_run_atoms(fi, table, s_)
             got = any(i in reached for a in acts for i in q.nodes_for(fi, a))
             R.inst("%s [%s]: %s" % (spec, label, "update" if want else "untouched"))
             if got != want:
@@ -248,8 +291,8 @@ def r3(ctx, R):
     R.inst("rename_cells: a sub space that has its own cells of the new name loses only the derived copy")
     ren = [c for c in q.calls(rc, name="on_rename")]
     dl = [c for c in q.calls(rc, name="on_del_cells")]
-    oc2 = lambda e: {"c is not cells": "T", "name in space.cells": "T"}.get(norm(e))
-    reached = q.run_abstract(rc, oc2)
+    reached = _case_run_atoms(rc, {("is", "c", "cells"): "is_self", ("in", "name", "space.cells"): "has_new"},
+                              {"is_self": False, "has_new": True})
     if any(i in reached for c in ren for i in q.nodes_for(rc, c)) or not dl or \
             not any(i in reached for c in dl for i in q.nodes_for(rc, c)):
         R.bad(rc, ren[0] if ren else rc.node, "the derived cells of a sub is renamed onto the sub's own cells of that name, "
@@ -259,17 +302,16 @@ def r3(ctx, R):
     lp = _sub_loops(fi)
     R.must(lp, "new_cells: loop over subs not found")
     lp = lp[0]
-    vocab = {"name in subspace.cells", "sub.is_derived()", "self.get_deriv_bases(sub, defined_only=True)[0] is cells"}
-    _known(fi, lp, vocab, R)
+    table = {("in", "name", "subspace.cells"): "has", ("call", "sub.is_derived()"): "derived", ("ncall", "sub.is_defined()"): "derived",
+             ("is", "self.get_deriv_bases(sub, defined_only=True)[0]", "cells"): "first"}
+    _known_atoms(fi, lp, table, R)
     create = [c for c in ast.walk(lp) if isinstance(c, ast.Call) and call_name(c) == "UserCellsImpl"]
     rederive = [c for c in ast.walk(lp) if isinstance(c, ast.Call) and call_name(c) == "on_inherit"]
     for label, has, derived, first, want in (("lacks the name", False, False, False, "create"),
                                              ("has a defined cells", True, False, False, "none"),
                                              ("derives it from b (b now first definer)", True, True, True, "rederive"),
                                              ("derives it from an earlier base", True, True, False, "none")):
-        preds = {"name in subspace.cells": has, "sub.is_derived()": derived,
-                 "self.get_deriv_bases(sub, defined_only=True)[0] is cells": first}
-        reached = _case_run(fi, preds)
+        reached = _case_run_atoms(fi, table, {"has": has, "derived": derived, "first": first})
         gc = any(i in reached for a in create for i in q.nodes_for(fi, a))
         gr = any(i in reached for a in rederive for i in q.nodes_for(fi, a))
         got = "create" if gc else ("rederive" if gr else "none")
